@@ -401,7 +401,14 @@ def check_tree_mask(ctx, pt, n, tedges, root, pts, mask):
         if len(idx) == 1:
             ctx.event("tree mask: only root left, refused")
             return
-        if "BFS" in str(e):
+        # whose fault? if the plain constructor also refuses the expected (valid) tree it is the
+        # constructor's root/adjacency validation, otherwise the masking itself went wrong
+        ctor_refuses = False
+        try:
+            Tree.init_from_edges(earr(sub_edges), len(idx), new[root])
+        except ValueError:
+            ctor_refuses = True
+        if ctor_refuses:
             ctx.event("tree mask: valid mask refused by BFS check")
             ctx.fail("tree.bfs_check.refuses_valid_tree.from_mask", "%s: %s; expected tree edges %r root %d" % (info(), e, sub_edges, new[root]))
         else:
